@@ -879,14 +879,25 @@ impl MachineState {
             }
         }
 
+        let is_cyclic = heap_pstr_iter.is_cyclic();
         let end_cell = heap_pstr_iter.heap[heap_pstr_iter.focus()];
 
-        if heap_pstr_iter.is_cyclic() || end_cell != empty_list_as_cell!() {
-            let err = self.type_error(ValidType::List, a1);
-            return Err(self.error_form(err, stub_gen()));
+        if !is_cyclic {
+            // the string may be continued by ordinary list cells, e.g. the literal [a,b,10]
+            let end_cell = self.store(self.deref(end_cell));
+
+            if end_cell == empty_list_as_cell!() {
+                return Ok(chars);
+            }
+
+            if end_cell.get_tag() == HeapCellValueTag::Lis {
+                let l = end_cell.get_value() as usize;
+                return self.try_from_inner_list(chars, l, stub_gen, a1);
+            }
         }
 
-        Ok(chars)
+        let err = self.type_error(ValidType::List, a1);
+        Err(self.error_form(err, stub_gen()))
     }
 
     // returns true on failure.
